@@ -27,7 +27,7 @@ def trim(s):
 def op_alphabet(nsess, cmds):
     ops = [("N",), ("T",)]
     for s in range(nsess):
-        ops += [("S", s), ("C", s), ("X", s)]
+        ops += [("S", s), ("C", s), ("X", s), ("W", s)]
         ops += [("D", s, o) for o in (1, 2, -1, 0, -7)]
         ops += [("A", s, c) for c in cmds]
     return ops
@@ -37,7 +37,7 @@ def gen_cases(ctx):
     rng = ctx.rng
     cases = []
     # exhaustive short sequences over a reduced alphabet (one or two sessions)
-    small = [("N",), ("T",), ("S", 0), ("S", 1), ("X", 0), ("D", 0, 1), ("D", 0, -1), ("C", 0),
+    small = [("N",), ("T",), ("S", 0), ("S", 1), ("X", 0), ("W", 0), ("D", 0, 1), ("D", 0, -1), ("C", 0),
              ("A", 0, "ls"), ("A", 0, "  echo a b  "), ("A", 1, "x=1"), ("A", 0, "#hash")]
     depth = 3 if ctx.quick else 5
     for d in range(1, depth + 1):
@@ -58,6 +58,8 @@ def gen_cases(ctx):
                 seq.append(("S", rng.randrange(0, 3)))
             elif r < 0.72:
                 seq.append(("X", rng.randrange(0, 3)))
+            elif r < 0.78:
+                seq.append(("W", rng.randrange(0, 3)))
             else:
                 seq.append(rng.choice(alpha))
         cases.append((init, seq))
@@ -72,7 +74,7 @@ def encode(init, seq, nows=None):
             now = nows[k] if nows else 0
             k += 1
             f += ["A", str(o[1]), str(now), o[2]]
-        elif o[0] in ("S", "C", "X"):
+        elif o[0] in ("S", "C", "X", "W"):
             f += [o[0], str(o[1])]
         elif o[0] == "D":
             f += ["D", str(o[1]), str(o[2])]
@@ -163,6 +165,13 @@ def spec_check(init, seq, states):
                 exp_new = [c for c, u in s if u]
                 for e in s:
                     e[1] = False
+            elif o[0] == "W":
+                # `history -w`: the file is REPLACED by exactly the session's commands (old tail gone)
+                got_cmds = [l for l in lines if not l.startswith("#")]
+                if got_cmds != [c for c, u in s]:
+                    return "after %r the file holds commands %r, expected exactly the session's %r" % (o, got_cmds, [c for c, u in s])
+                file_prev = lines
+                continue
             elif o[0] == "C":
                 del s[:]
             elif o[0] == "D":
@@ -246,8 +255,8 @@ def run(ctx):
     return {
         "evaluations": len(cases),
         "distinct_nontrivial": len(distinct),
-        "rule": "op sequences over {Add(sid,cmd), Save(sid), SaveFail(sid: a save whose write fails, HISTFILE=/dev/full), NewSession, Delete(sid,off), Clear(sid), ToggleTs} on one shared HISTFILE: "
-                "all sequences up to length %d over a 12-op alphabet (%d cases) plus random sequences of length<=14 over 3 sessions, "
+        "rule": "op sequences over {Add(sid,cmd), Save(sid), SaveFail(sid: a save whose write fails, HISTFILE=/dev/full), Write(sid: `history -w`), NewSession, Delete(sid,off), Clear(sid), ToggleTs} on one shared HISTFILE: "
+                "all sequences up to length %d over a 13-op alphabet (%d cases) plus random sequences of length<=14 over 3 sessions, "
                 "8 commands (blank-padded, '#'-leading, empty, multi-byte, NBSP) and initial files with timestamp/comment/blank lines; "
                 "non-trivial = contains at least one Add and one Save; distinct by the (init, ops) pair"
                 % (3 if ctx.quick else 5, exhaustive_n),
